@@ -221,11 +221,16 @@ namespace AIToolbox {
     size_t sampleProbability(const size_t d, const SparseMatrix2D::ConstRowXpr& in, G& generator) {
         double p = probabilityDistribution(generator);
 
-        for ( SparseMatrix2D::ConstRowXpr::InnerIterator i(in, 0); ; ++i ) {
+        // If the stored values sum to less than the sampled number (rows are
+        // only required to sum to one within tolerance) we fall back to the
+        // last stored column, as the dense version falls back to d-1.
+        size_t last = d-1;
+        for ( SparseMatrix2D::ConstRowXpr::InnerIterator i(in, 0); i; ++i ) {
             if ( i.value() > p ) return i.col();
             p -= i.value();
+            last = i.col();
         }
-        return d-1;
+        return last;
     }
 
     /**
